@@ -132,6 +132,9 @@ Step1(sl) ==
             Take(Step(o, i, <<i>>, s, E, E, 0, E))
   \/ \E o \in BareWrapOps \cap Ops :
         \E i \in (IF o \in ForeignWrap THEN NonNil(sl) ELSE Targets(sl)) : Take(Step(o, i, <<i>>, E, E, E, 0, E))
+  \* safe details with a Safe() argument the format has no verb for (also with an empty format)
+  \/ On("WithSafeDetails") /\ \E i \in Targets(sl) : \E s \in SH \cup {E} : \E t \in SH2 :
+        Take(Step("WithSafeDetails", i, <<i>>, E, E, <<Part("lit", s, 0), Part("xsafe", t, 0)>>, 0, E))
   \/ \E o \in {"Wrapf", "NewAssertionErrorWithWrappedErrf", "WithSafeDetails"} \cap Ops :
         \E i \in Targets(sl) : \E p \in PartsPool(sl) \cup {E} : Take(Step(o, i, <<i>>, E, E, p, 0, E))
   \/ On("WithTelemetry") /\ \E i \in Targets(sl) : \E a \in KeyPool : Take(Step("WithTelemetry", i, <<i>>, E, a, E, 0, E))
@@ -158,6 +161,9 @@ Step1(sl) ==
   \/ NilOps /\ \E o \in {"WithSecondaryError", "CombineErrors", "Join", "JoinPkg", "GoJoin"} \cap Ops :
         \E i \in NonNil(sl) : \E j \in FirstFree(sl) : Take(Step(o, i, <<i, j>>, E, E, E, 0, E))
   \/ On("GoWrap2") /\ \E p \in Pairs(sl) : \E s \in SH : Take(Step("UMulti", p[1], <<p[1], p[2]>>, s, E, E, 0, E))
+  \* a multi-cause node with its own Is method (says it is any error whose text is the tag)
+  \/ On("UIs") /\ On("GoWrap2") /\ \E p \in Pairs(sl) : \E s \in SH : \E t \in SH :
+        Take(Step("UMulti", p[1], <<p[1], p[2]>>, s, <<t>>, E, 0, E))
   \/ On("GoWrap2") /\ \E p \in Pairs(sl) : \E s \in {<<SP>>, <<SEP>>, <<NL>>} :
         Take(Step("GoWrap2", p[1], <<p[1], p[2]>>, s, E, E, 0, E))
 
